@@ -367,7 +367,10 @@ def run(tier, seed):
         tie_broken.append('translator failed closed: ' + tout[-600:])
     if corr_fail:
         tie_broken.append('correspondence (model body text vs implementation) differs on %d sentences, first: %r' % (len(corr_fail), cmeta[corr_fail[0]]))
-    only_model = [j for j in mobs_fail if ometa[j]['i'] not in corr_fail and j not in bare_known]
+    def bare_finally(j):
+        return ('F-C05-bare-finally' in findings and int(ometa[j]['i']) in T_bare_c and 'finally ' in ometa[j]['text'].split('\n')[-1]
+                and bool(re.search(r'(?<![A-Za-z0-9_&])__[a-z]', str(ometa[j]['impl']))))
+    only_model = [j for j in mobs_fail if ometa[j]['i'] not in corr_fail and j not in bare_known and not bare_finally(j)]
     if only_model:
         tie_broken.append('model semantics (Tel/Sem.v) disagrees with telingo on %d sentences, first: %r' % (len(only_model), ometa[only_model[0]]))
     if proof['bad']:
